@@ -9,7 +9,9 @@ from ..lib.report import Report
 from ..drivers import ctlgen, pipedrv, replaylib
 
 PID = 'C01'
-KINDS = ('random', 'prefix', 'text', 'zeros', 'code', 'code')
+KINDS = ('random', 'prefix', 'text', 'zeros', 'code', 'code', 'chars')
+# the chars images take the four -H/-l combinations in turn
+HL = ([], ['-H'], ['-l'], ['-H', '-l'])
 
 
 def worker(args):
@@ -24,7 +26,9 @@ def worker(args):
         size = rnd.choice((12, 24, 40, 64, 100, 160))
         top = rnd.random() < 0.25             # image placed against 65535
         org = 65536 - size if top else rnd.choice((0x4000, 0x8000, 0xC000, 40000, 0x7FF0, 65536 - size - rnd.randrange(1, 50)))
-        mem = ctlgen.gen_image(rnd, size, kind)
+        chars = kind == 'chars'
+        nch = k // len(KINDS)
+        mem = ctlgen.gen_char_image(rnd, size, sd * 31 + nch * 3) if chars else ctlgen.gen_image(rnd, size, kind)
         start = org + rnd.choice((0, 0, rnd.randrange(0, size // 3)))
         end = org + size - rnd.choice((0, 0, rnd.randrange(0, size // 3)))
         wrap = top and rnd.random() < 0.5
@@ -32,6 +36,8 @@ def worker(args):
         full[org:org + size] = mem
         ign = []
         opts = pipedrv.gen_options(rnd)
+        if chars:
+            opts = HL[nch % 4] + [o for o in opts if o not in ('-H', '-l')]
         if '-r' in opts:
             # RST 8 with its inline argument, a few anywhere and often as the last thing before the end of the image / of memory
             # (argument = the last byte; RST as the last byte: no argument left)
@@ -49,7 +55,10 @@ def worker(args):
             full[org:org + size] = mem
             if rnd.random() < 0.7:
                 opts += ['-I', 'Opcodes=ALL']
-        lines = ctlgen.gen_doc(rnd, full, start, end, ignored=ign if k % 3 == 0 else None, loops=(k % 3 == 1), rst='-r' in opts, wrap_ok=wrap)
+        if chars:
+            lines = ctlgen.gen_char_doc(rnd, full, start, end, rst='-r' in opts, wrap_ok=wrap)
+        else:
+            lines = ctlgen.gen_doc(rnd, full, start, end, ignored=ign if k % 3 == 0 else None, loops=(k % 3 == 1), rst='-r' in opts, wrap_ok=wrap)
         if end >= 65536:
             lines = [l for l in lines if not l.startswith('i 65536')]
         c = pipedrv.pipeline(sub, k, mem, org, start, end, lines, opts, wrap)
@@ -82,6 +91,17 @@ def run(tier):
         parts = pool.map(worker, [(sd * 16 + k, per, wd) for k in range(16)])
     cases = [c for p in parts for c in p]
     log('C01: %d pipeline runs' % len(cases))
+    # vacuity: every awkward character was written as a character operand in each position (index displacement, second
+    # operand, only operand) of some disassembly of a chars image
+    missing = []
+    chars_sk = [c['skool'] for c in cases if c['kind'] == 'chars']
+    for v in ctlgen.AWKWARD + (97, 65):
+        lit = '"%s"' % {92: '\\\\', 34: '\\"'}.get(v, chr(v))
+        for pos, pat in (('index', '+%s)'), ('second', ',%s'), ('first', ' %s'), ('address', '(%s)')):
+            if not any(pat % lit in s or pat % lit.lower() in s for s in chars_sk):
+                missing.append('%d:%s' % (v, pos))
+    if missing:
+        raise MachineryError('C01: character operands never generated: %s' % ' '.join(missing))
     fails = judge(rep, cases, wd)
     for c in cases:
         rep.count((c['kind'], tuple(c['ctl']), tuple(c['opts'][6:])))
@@ -94,7 +114,9 @@ def run(tier):
                                                               '\n'.join(c['ctl'][:30])), c)
     rep.rule = ('image class x range x generated control file (b/c/g/s/t/u/w blocks, B/C/S/T/W sub-blocks, sublength lists with '
                 'base prefixes, * multipliers, string/byte mixes, L loops with and without the block flag, mid-range i blocks) x options (-H -l -w, DefbSize/DefmSize/DefwSize, '
-                'Opcodes, Timings, Text, InstructionWidth, Semicolons, Wrap); distinct_nontrivial = distinct (image class, ctl, options)')
+                'Opcodes, Timings, Text, InstructionWidth, Semicolons, Wrap); every 7th image is code whose operands (index displacement, immediate after it, '
+                'plain immediate, port, 16-bit value) are printable characters incl. \\ " space ; : , ( ) + - and letters, under C sub-blocks with bases c/cc/cn/nc/ch/hc/cd/dc/cb/bc, '
+                'with -H/-l in all four combinations; distinct_nontrivial = distinct (image class, ctl, options)')
     rmworkdir('c01')
     return rep.finish()
 
